@@ -329,40 +329,40 @@ func runAPICase(ac APICase) (*Fail, error) {
 	}
 	// alive: both APIs answer, no handler panicked, every lock can be obtained
 	alive := func(sigBase, what string) (*Fail, error) {
-	// liveness of both APIs
-	if code, err := get("http://" + ch.ctrl + "/v1/volumes"); err != nil || code != 200 {
-		if dead, how := ch.exited(); dead {
-			return fail(sigBase+"|process-exit", what+"\nthe API process terminated: "+how+"\n"+tailStr(ch.errb.String(), 1500), "C14"), nil
+		// liveness of both APIs
+		if code, err := get("http://" + ch.ctrl + "/v1/volumes"); err != nil || code != 200 {
+			if dead, how := ch.exited(); dead {
+				return fail(sigBase+"|process-exit", what+"\nthe API process terminated: "+how+"\n"+tailStr(ch.errb.String(), 1500), "C14"), nil
+			}
+			return fail(sigBase+"|controller-api-wedged", what+fmt.Sprintf("\nafterwards GET /v1/volumes on the controller: code=%d err=%v", code, err), "C14"), nil
 		}
-		return fail(sigBase+"|controller-api-wedged", what+fmt.Sprintf("\nafterwards GET /v1/volumes on the controller: code=%d err=%v", code, err), "C14"), nil
-	}
-	for ni, n := range ch.nodes {
-		if code, err := get("http://" + n + "/v1/replicas/1"); err != nil || code != 200 {
-			return fail(sigBase+"|replica-api-wedged", what+fmt.Sprintf("\nafterwards GET /v1/replicas/1 on node %d: code=%d err=%v", ni, code, err), "C14"), nil
+		for ni, n := range ch.nodes {
+			if code, err := get("http://" + n + "/v1/replicas/1"); err != nil || code != 200 {
+				return fail(sigBase+"|replica-api-wedged", what+fmt.Sprintf("\nafterwards GET /v1/replicas/1 on node %d: code=%d err=%v", ni, code, err), "C14"), nil
+			}
 		}
-	}
-	// admin probe: panics, locks
-	var pr apiProbe
-	presp, err := client.Get("http://" + ch.admin + "/probe")
-	if err != nil {
-		if dead, how := ch.exited(); dead {
-			return fail(sigBase+"|process-exit", what+"\nthe API process terminated: "+how, "C14"), nil
+		// admin probe: panics, locks
+		var pr apiProbe
+		presp, err := client.Get("http://" + ch.admin + "/probe")
+		if err != nil {
+			if dead, how := ch.exited(); dead {
+				return fail(sigBase+"|process-exit", what+"\nthe API process terminated: "+how, "C14"), nil
+			}
+			return nil, fmt.Errorf("admin probe failed: %v", err)
 		}
-		return nil, fmt.Errorf("admin probe failed: %v", err)
-	}
-	json.NewDecoder(presp.Body).Decode(&pr)
-	presp.Body.Close()
-	if len(pr.Panics) > 0 {
-		return fail(sigBase+"|handler-panic", what+"\n"+headStr(pr.Panics[0], 1800), "C14"), nil
-	}
-	if !pr.CtrlLock {
-		return fail(sigBase+"|controller-lock-held", what+"\nthe controller lock could not be obtained within 10 s afterwards", "C14"), nil
-	}
-	for ni, ok := range pr.NodeLocks {
-		if !ok {
-			return fail(sigBase+"|replica-lock-held", what+fmt.Sprintf("\nthe server lock of node %d could not be obtained within 10 s afterwards", ni), "C14"), nil
+		json.NewDecoder(presp.Body).Decode(&pr)
+		presp.Body.Close()
+		if len(pr.Panics) > 0 {
+			return fail(sigBase+"|handler-panic", what+"\n"+headStr(pr.Panics[0], 1800), "C14"), nil
 		}
-	}
+		if !pr.CtrlLock {
+			return fail(sigBase+"|controller-lock-held", what+"\nthe controller lock could not be obtained within 10 s afterwards", "C14"), nil
+		}
+		for ni, ok := range pr.NodeLocks {
+			if !ok {
+				return fail(sigBase+"|replica-lock-held", what+fmt.Sprintf("\nthe server lock of node %d could not be obtained within 10 s afterwards", ni), "C14"), nil
+			}
+		}
 
 		return nil, nil
 	}
